@@ -16,7 +16,8 @@ RULE = ("(a) exact regime: 1-4-d meshes whose cells all have different dyadic si
         "1-4 components, integer data, a random validity mask: Field.integrate() / discretisedfield.integrate, "
         "integrate(d) and integrate(d, cumulative=True) for EVERY direction, direction-by-direction integration in "
         "EVERY order (all permutations up to 3-d, all 24 in 4-d in the thorough tier), mean(), mean(d) for every d, "
-        "mean(list) for every ordered subset of directions (sampled in 4-d), Mesh.sel(d) for every d: values, result "
+        "mean(list) for every ordered subset of directions (sampled in 4-d), a direction-by-direction chain of means over a random proper "
+        "subset (2^-40: one rounding per step), abs(field) integrals, Mesh.sel(d) for every d: values, result "
         "mesh (corners, dims, units, n, bc, subregions), labels, mapping, unit and validity must EQUAL the rational "
         "model (means: equal to the correctly rounded quotient); (b) tolerance regime: nm..km scales, arbitrary "
         "binary64 data, 2^-40 relative bound; (c) malformed directions (unknown, duplicate, non-string, cumulative "
@@ -27,19 +28,30 @@ RULE = ("(a) exact regime: 1-4-d meshes whose cells all have different dyadic si
         "mean(), mean(d), mean(list), a chained integral and Mesh.sel(d) are evaluated again on the SAME objects and must equal "
         "the model run on the field's CURRENT mesh state (exact; 2^-40 after a quarter turn, whose sin/cos leave the dyadic "
         "grid) and the oracle for that state (sum x current cell measure; mean() unchanged by scaling/translation; integrals "
-        "unchanged by translation), so a value cached across an in-place change shows. Oracle on the real code alone: numpy sums with the axis looked up "
+        "unchanged by translation), so a value cached across an in-place change shows; in addition the Lean model REPLAYS the scale / translate "
+        "prefix of every history itself (hstep of DFV/Model/C06Hist.lean, the in-place steps of the shared transformation model) from the "
+        "initial state and after every step its mesh (corners, n, subregions) and all its answers must equal those of the real objects, and "
+        "its accumulated volume factor must equal dV_now / dV_initial; (e) abs(field).integrate() / integrate(d) / cumulative against the "
+        "model's integrate(absF f). Oracle on the real code alone: numpy sums with the axis looked up "
         "by name x cell length from the corners, reduced-mesh geometry, Fubini over all orders, cumulative formula and "
         "last-entry relation, mean = integral / extent, linearity, per-component action, translation invariance, "
-        "refusals. non-trivial = at least 2 cells, non-constant data")
+        "integral of |f| = measure x sum of |values| and >= |integral of f|, refusals. non-trivial = at least 2 cells, non-constant data")
 TRUSTED = ["harness/c06.py, harness/fieldio.py + driver JSON glue",
            "np.sum / np.cumsum / ndarray.mean / np.prod modelled by contract (sum over the named axes, running sum, sum/count)"]
 ASSUMPTIONS = ["exact-regime inputs (small integers, dyadic corners and cells): every binary64 operation on the code path of the "
                "integrals is exact, so equality is demanded; a mean is one correctly rounded division of an exact sum by a count",
                "theorems are about exact rational arithmetic; float rounding enters only via the tolerance comparator"]
-UNPROVED = ["linearity / per-component action / translation invariance are proved for every form of integrate and for mean(); for "
-            "mean(d) and mean(list) they follow from mean_dir_eq / mean_dirs_eq + integrate_linear and are not stated as separate theorems",
-            "the success theorems (…_ok, fubini_total) assume a mesh without subregions; with subregions the theorems are conditional on "
-            "the result being returned (the subregion setter's alignment test is modelled, its success is not proved)"]
+UNPROVED = ["the success / acceptance theorems (…_ok, fubini_total, fubini_perm, integrate_ok_iff, mean_ok_iff, sel_subregions) take "
+            "subregions that fit the mesh EXACTLY (SubsFit: start a whole number of cells in, a whole number >= 1 of cells long); "
+            "subregions the setter accepts only thanks to its 1e-12 / 0.1 % tolerances are outside the theorems (there the model "
+            "follows the code by correspondence only, on the clear side of the thresholds)",
+            "in-place histories: proved for mesh.scale / mesh.region.scale / mesh.translate / mesh.region.translate (cell lengths, dV, "
+            "all integrals and means, by induction over the history; subregions keep fitting under the mesh-level steps); quarter "
+            "turns (field.rotate90) are not replayed by the Lean model of C06 (float sin/cos in the code) and the region-only "
+            "steps do not keep the subregions fitting, so existence of integrate(d) after them is proved only for meshes without subregions",
+            "theorems are about exact rational arithmetic: a chain of k means rounds k times in binary64, so the code's "
+            "mean(d1).mean(d2) equals mean([d1, d2]) only to rounding (compared with the 2^-40 bound), while the theorem "
+            "meanSeq_eq_mean_list states exact equality on the model"]
 BUDGET = {"quick": 120, "thorough": 1200}
 
 NAMES = ["x", "y", "z", "a", "b", "c", "u", "v", "w", "t"]
@@ -222,6 +234,13 @@ def do_request(f, req, rng=None, fn_form=False, as_tuple=False):
                 g = integrate_api(g, d, False, fn_form)
             return g
         return call(chain)
+    if op == "mean_seq":
+        def mchain():
+            g = f
+            for d in req["dirs"]:
+                g = g.mean(d)
+            return g
+        return call(mchain)
     if op == "sel":
         return call(lambda: f.mesh.sel(req["dim"]))
     if op == "dV":
@@ -445,6 +464,21 @@ def field_oracle(case, f, arr, mesh, rng, fail, exact, light=False):
             if not reduced_mesh_ok(g.mesh, spec, list(axes)):
                 fail(f"mean({s}) lives on {g.mesh}, not on the mesh with axes {list(axes)} removed")
                 return
+    # 5b. means are consistent across axes: direction by direction = mean(list), same reduced mesh
+    if nd >= 2:
+        s2 = list(rng.sample(dims, rng.randint(1, nd - 1)))
+        def mchain():
+            g = f
+            for dd in s2:
+                g = g.mean(dd)
+            return g
+        gc, gl = call(mchain), call(lambda: f.mean(list(s2)))
+        if is_err(gc) or is_err(gl) or not isinstance(gc, df.Field) or not isinstance(gl, df.Field):
+            fail(f"mean chain {s2} / mean({s2}) raised or returned no field: {gc if is_err(gc) else ''} {gl if is_err(gl) else ''}")
+            return
+        if gc.mesh != gl.mesh or not eq_close(gc.array, obj(gl.array), absum):
+            fail(f"averaging direction by direction over {s2} differs from mean({s2})")
+            return
     if not exact or light:
         return
     # 6. linearity
@@ -555,6 +589,10 @@ def requests_for(case, rng, dims, tier):
     if nd >= 3:
         p = list(rng.sample(dims, rng.randint(2, nd - 1)))
         reqs.append(dict(op="integrate_seq", dirs=p))
+    # direction-by-direction means over a proper subset (each step rounds once: compared to 2^-40)
+    if nd >= 2:
+        p = list(rng.sample(dims, rng.randint(1, nd - 1)))
+        reqs.append(dict(op="mean_seq", dirs=p))
     return reqs
 
 
@@ -581,6 +619,8 @@ def bad_requests(rng, dims):
            dict(op="sel", dim="nope"),
            dict(op="sel", dim=dims[0]),
            dict(op="integrate_seq", dirs=[dims[0], dims[0]]),
+           dict(op="mean_seq", dirs=[dims[0], dims[0]]),
+           dict(op="mean_seq", dirs=list(dims)),
            dict(op="integrate_seq", dirs=list(dims) + [dims[0]])]
     if nd >= 2:
         out += [dict(op="mean", dir=list(dims) + [dims[0]]),
@@ -855,6 +895,8 @@ def req_label(r):
         return f"mean({r.get('dir')!r})"
     if r["op"] == "integrate_seq":
         return f"integrate chain {r['dirs']}"
+    if r["op"] == "mean_seq":
+        return f"mean chain {r['dirs']}"
     if r["op"] == "dV":
         return "mesh.dV, mesh.cell"
     return f"mesh.sel({r['dim']!r})"
@@ -895,10 +937,13 @@ def compare(case, obs, rs):
         for a, b in zip(reg["pmin"], reg["pmax"]):
             ext *= max(F(b) - F(a), Fraction(1))
         scale = tot * ext
+    tot_all = sum(abs(F(x)) for row in obs["field"]["data"] for x in row)
     for r, got, resp in zip(obs["reqs"], obs["res"], outs):
         mode = "tol" if not exact else ("round" if r["op"] == "mean" else "exact")
         sc = scale
-        if not exact:
+        if r["op"] == "mean_seq":
+            mode, sc = "tol", tot_all  # one rounding per step of the chain
+        elif not exact:
             # scale: sum of |values| x measure of the integrated directions (1 for means)
             sc = tot if r["op"] == "mean" else tot * measure_of(obs["field"]["mesh"], r)
         cmp_res(req_label(r), got, resp, dis, mode, sc)
